@@ -9,7 +9,7 @@ EXPLANATION = ('Static rules on the conversion sinks and the completion status: 
                'sends at least one message on every path; R2 the stream ends after a terminal (end marker sent, or poll_next maps the closed '
                'channel to Ready(None) and constructs Pending only by propagating the inner poll); R3 StatusFuture::poll registers its waker '
                'before the flag read that decides Pending (no lost wake-up); R4 the producer stores the flag before wake(), after the '
-               'downstream terminal; R5 future observer complete = send then close. Decides the hand-off protocol; does not decide which '
+               'downstream terminal; R5 future observer complete = send then close; R6 the message sent by error() carries the err argument on every path (the outcome reported is the error of the source). Decides the hand-off protocol; does not decide which '
                'value is produced (Empty/MultipleValues logic).')
 ASSUMPTIONS = ['futures unbounded channel and AtomicWaker behave as documented (a message sent before the sender is dropped is received; wake() after register() wakes)']
 
@@ -21,6 +21,7 @@ CONTROLS = [
     'R1|<verif_controls::SilentErrorSink<T, E> as Observer>::error',
     'R3|<verif_controls::CheckThenRegister as Future>::poll',
     'R4|<verif_controls::WakeBeforeStore<O> as Observer>::complete',
+    'R6|<verif_controls::LossyErrorSink<T, E> as Observer>::error',
 ]
 CONTROLS_OK = ['R3|<verif_controls::RegisterThenCheck as Future>::poll']
 
@@ -38,7 +39,7 @@ def _send_ev(n):
 
 
 def check(cx):
-    return r1_r5(cx) + r2(cx) + r3(cx) + r4(cx)
+    return r1_r5(cx) + r2(cx) + r3(cx) + r4(cx) + r6(cx)
 
 
 def r1_r5(cx):
@@ -185,4 +186,59 @@ def r4(cx):
                                fn['span'], bad[1] if bad else None))
     if not cx.control and n < 2:
         res.append(Finding(ID, 'R4', 'floor', False, 'StatusObserver terminal methods not found'))
+    return res
+
+
+def r6(cx):
+    """FLOW: the error handed to error() is what is sent to the waiting side — on every path the message sent
+    contains the `err` argument, directly or through a cell it was stored into and that was not overwritten since"""
+    from ..core import recv_class
+    from ..expr import access_path
+    res = []
+    n = 0
+    for im in cx.observer_impls():
+        tag = roles.impl_tag(cx, im)
+        if tag not in SINKS and not (cx.control and tag == 'verif_controls::LossyErrorSink'):
+            continue
+        n += 1
+        fn = cx.method(im, 'error')
+        g = cx.graph(fn['key'])
+        label = cx.label(fn)
+
+        def is_err(e, holders):
+            return mentions(e, lambda x: (x[0] == 'arg' and x[1] == 2) or (x[0] in ('field', 'call', 'variant') and recv_class(x) in holders and recv_class(x) != 'self'))
+
+        def step(st, nd, lab):
+            holders, sent = st
+            if sent == 'BAD':
+                return None
+            k = nd['kind']
+            if k == 'assign':
+                root, steps = access_path(nd['lhs'])
+                if root[0] == 'arg' and root[1] == 1 and steps:
+                    cls = recv_class(nd['lhs'])
+                    if is_err(nd['rhs'], holders):
+                        holders = holders | {cls}
+                    else:
+                        holders = holders - {cls}
+            elif k == 'call' and nd['name'] in ('std::option::Option::replace', 'std::option::Option::insert', 'std::mem::replace') and len(nd['args']) > 1:
+                cls = recv_class(nd['args'][0])
+                if is_err(nd['args'][1], holders):
+                    holders = holders | {cls}
+                else:
+                    holders = holders - {cls}
+            if _send_ev(nd) == ('send',):
+                if any(is_err(a, holders) for a in nd['args'][1:]):
+                    sent = 'OK'
+                elif sent != 'OK':
+                    return (holders, 'BAD')
+            return (holders, sent)
+        reached, pred = explore(g, (frozenset(), None), step)
+        bad = [k for k in reached if k[1][1] == 'BAD']
+        res.append(Finding(ID, 'R6', label, not bad,
+                           'the message sent carries the err argument on every path' if not bad else
+                           'on some path the message sent on error() does not carry the source\'s error (it was overwritten or never stored): the future/stream reports a different outcome',
+                           fn['span'], witness(g, pred, bad[0], interesting_default) if bad else None))
+    if not cx.control and n < 2:
+        res.append(Finding(ID, 'R6', 'floor', False, 'conversion sinks not found'))
     return res
